@@ -10,9 +10,12 @@ import (
 	"fmt"
 	"math/big"
 	"os"
+	"os/exec"
 	"path/filepath"
 	"sort"
 	"sync"
+	"syscall"
+	"time"
 
 	"github.com/cloudflare/circl/oprf"
 
@@ -251,4 +254,23 @@ var _ = fmt.Sprintf
 var SpecialStrings = []string{
 	"SigEd25519 no Ed25519 collisions", "SigEd25519 no Ed25519 collisions\x00\x00", "SigEd448", "ECDSA Key Blind", "ClientBlind", "IssuerBlind", "IssuerOriginAlias",
 	"TokenRequest", "TokenResponse", "key", "nonce", "HPKE-v1", "OPRFV1-", "HashToGroup-OPRFV1-\x01-P384-SHA384", "Finalize", "DeriveKeyPair", "Seed-", "PrivateToken", "\x00", "\x00\x03ClientBlind",
+}
+
+// freezeSelfAfter stops this whole worker process (SIGSTOP) after the given delay and has it continued (SIGCONT, sent
+// by a helper shell) after the given duration: for everything inside the process, wall-clock time jumps while no work
+// is done - what a starved or suspended process sees. Calls in flight at that moment must simply finish afterwards;
+// code that gives up, or answers differently, because "too much time has passed" shows.
+func freezeSelfAfter(delay, d time.Duration) (done chan struct{}) {
+	done = make(chan struct{})
+	go func() {
+		defer close(done)
+		time.Sleep(delay)
+		cmd := exec.Command("/bin/sh", "-c", fmt.Sprintf("sleep %.2f; kill -CONT %d", d.Seconds(), os.Getpid()))
+		if cmd.Start() != nil {
+			return
+		}
+		syscall.Kill(os.Getpid(), syscall.SIGSTOP)
+		cmd.Wait()
+	}()
+	return done
 }
